@@ -137,6 +137,7 @@ def run_batch(batch):
         "headers_builder": B.gen_headers_builder, "headers_decode": B.gen_headers_decode, "retry_vn": B.gen_retry_vn,
         "header_bytes": B.gen_header_bytes, "tp_values": C.gen_tp_values, "tp_bytes": C.gen_tp_bytes,
         "tls_values": C.gen_tls_values, "tls_bytes": C.gen_tls_bytes, "replay_bytes": C.gen_replay_bytes,
+        "replay_header_offset": B.gen_replay_header_offset,
     }
     res = Result()
     t0 = time.process_time()
